@@ -175,17 +175,6 @@ theorem C06_updates_fold (l : List (Entry V)) (hl : Sorted l) (us : List (Upd V)
     rw [h2 d, hstep.2 d]
     rfl
 
-theorem foldl_specStep_untouched (d : Int) (acc : Option V) (us : List (Upd V))
-    (h : ∀ u ∈ us, ¬ u.covers d) : us.foldl (specStep d) acc = acc := by
-  induction us generalizing acc with
-  | nil => rfl
-  | cons u us ih =>
-    rw [List.foldl_cons]
-    have : specStep d acc u = acc := by
-      unfold specStep; rw [if_neg (h u (List.mem_cons_self ..))]
-    rw [this]
-    exact ih acc (fun u' hu' => h u' (List.mem_cons_of_mem _ hu'))
-
 /-- A date that no update of the sequence covers reads as before. -/
 theorem C06_updates_untouched (l : List (Entry V)) (hl : Sorted l) (us : List (Upd V))
     (hus : ∀ u ∈ us, u.WF) (d : Int) (h : ∀ u ∈ us, ¬ u.covers d) :
@@ -223,7 +212,7 @@ theorem C06_defined_iff (l : List (Entry V)) (hl : Sorted l) (d : Int) :
       obtain ⟨x, hx⟩ := Option.isSome_iff_exists.mp h
       exact ⟨e, x, he, hx⟩
     · have : pget l d = none := pget_none_of_all_later l d (fun e he => by
-        have := fun c => hex ⟨e, he, c⟩
+        have h' : ¬ e.date ≤ d := fun c => hex ⟨e, he, c⟩
         omega)
       rw [this] at h
       cases h
@@ -312,9 +301,9 @@ theorem C06_scale_brackets (m : Bool) (bs : List Bracket) (d : Int) :
 example : (scaleAt false
     [⟨[⟨1, some 10⟩], [⟨1, some (1/2)⟩], [], []⟩,
      ⟨[⟨5, none⟩, ⟨1, some 0⟩], [⟨1, some (1/4)⟩], [], []⟩,
-     ⟨[⟨3, some 10⟩], [⟨1, some (1/4)⟩], [], []⟩] 3).rows = [(0, 1/4), (10, 3/4)] := by decide
+     ⟨[⟨3, some 10⟩], [⟨1, some (1/4)⟩], [], []⟩] 3).rows = [(0, 1/4), (10, 3/4)] := by decide +kernel
 example : (scaleAt false
     [⟨[⟨1, some 10⟩], [⟨1, some (1/2)⟩], [], []⟩,
-     ⟨[⟨5, none⟩, ⟨1, some 0⟩], [⟨1, some (1/4)⟩], [], []⟩] 5).rows = [(10, 1/2)] := by decide
+     ⟨[⟨5, none⟩, ⟨1, some 0⟩], [⟨1, some (1/4)⟩], [], []⟩] 5).rows = [(10, 1/2)] := by decide +kernel
 
 end OFCore
